@@ -352,6 +352,100 @@ def _instantiate(ginfo, call, caller_names, target):
     return new
 
 
+def _instantiate_generator(ginfo, for_stmt, caller_names):
+    """Statements replacing `for T in gen(args): BODY` for a generator helper of the form
+    [setup...] for X in ITER: [stmts without yield, may `continue`] yield E   -- the yield being the last statement of the loop body
+    and nothing following the loop.  None if the helper is not of that form."""
+    g = ginfo.node
+    if g.args.vararg or g.args.kwarg or g.decorator_list and not all(isinstance(d, ast.Name) and d.id in ("staticmethod",) for d in g.decorator_list):
+        return None
+    body = _body_wo_doc(g)
+    yields = [n for n in ast.walk(g) if isinstance(n, (ast.Yield, ast.YieldFrom))]
+    if len(yields) != 1 or not isinstance(yields[0], ast.Yield) or yields[0].value is None:
+        return None
+    if _contains(body, (ast.Return, ast.Await, ast.Global, ast.Nonlocal, ast.FunctionDef, ast.AsyncFunctionDef, ast.ClassDef)):
+        return None
+    if not body or not isinstance(body[-1], (ast.For, ast.While)) or body[-1].orelse:
+        return None
+    loop = body[-1]
+
+    def tail_block(stmts):
+        """The statement list in which the yield is the last statement, if the yield is in tail position of `stmts`."""
+        if not stmts:
+            return None
+        last = stmts[-1]
+        if isinstance(last, ast.Expr) and isinstance(last.value, ast.Yield):
+            return stmts
+        if isinstance(last, ast.If):
+            return tail_block(last.body) or tail_block(last.orelse)
+        return None
+
+    if tail_block(loop.body) is None or not any(x is yields[0] for x in ast.walk(loop)):
+        return None
+    if _contains(for_stmt.body, (ast.Break, ast.Return)) and False:
+        return None
+    # a `break` in the caller's body leaves the helper's loop: fine, nothing follows it in the helper
+    mapping = _bind_params(ginfo, for_stmt.iter, True)
+    if mapping is None:
+        return None
+    new_body = _clone(body)
+    assigned_in_g = set()
+    for st in new_body:
+        for n in ast.walk(st):
+            if isinstance(n, ast.Name) and isinstance(n.ctx, (ast.Store, ast.Del)):
+                assigned_in_g.add(n.id)
+    ren = {}
+    for x in sorted(assigned_in_g - set(mapping)):
+        if x in caller_names:
+            k = x + "_" + g.name.strip("_")
+            while k in caller_names:
+                k += "_"
+            ren[x] = k
+    pre, subst = [], {}
+    for p, a in mapping.items():
+        if p in assigned_in_g or not _simple_arg(a):
+            name = p
+            if name in caller_names:
+                name = p + "_" + g.name.strip("_")
+                while name in caller_names:
+                    name += "_"
+            if name != p:
+                ren[p] = name
+            pre.append(ast.Assign(targets=[ast.Name(id=name, ctx=ast.Store())], value=_clone(a), type_comment=None))
+        else:
+            subst[p] = a
+    holder = ast.Module(body=new_body, type_ignores=[])
+    if ren:
+        _Rename(ren).visit(holder)
+    if subst:
+        _Subst(subst).visit(holder)
+    new_body = holder.body
+    nloop = new_body[-1]
+
+    def tail_block2(stmts):
+        if not stmts:
+            return None
+        last = stmts[-1]
+        if isinstance(last, ast.Expr) and isinstance(last.value, ast.Yield):
+            return stmts
+        if isinstance(last, ast.If):
+            return tail_block2(last.body) or tail_block2(last.orelse)
+        return None
+
+    tb = tail_block2(nloop.body)
+    yexpr = tb[-1].value.value
+    bind = ast.Assign(targets=[_clone(for_stmt.target)], value=yexpr, type_comment=None)
+    for n in ast.walk(bind.targets[0]):
+        if hasattr(n, "ctx"):
+            n.ctx = ast.Store()
+    tb[-1:] = [bind] + list(for_stmt.body)
+    out = pre + new_body
+    _relocate([x for x in pre], for_stmt)
+    for st in out:
+        ast.fix_missing_locations(st)
+    return out
+
+
 def _single_return_expr(ginfo):
     body = _body_wo_doc(ginfo.node)
     if len(body) == 1 and isinstance(body[0], ast.Return) and body[0].value is not None:
@@ -488,6 +582,38 @@ def _inline_in_function(prog, fi, is_new, stats):
             i += 1
 
     rewrite_block(fi.node.body)
+
+    # generator helpers: `for T in gen(args): BODY` where the new helper is a loop whose body ends in its only `yield E`
+    # becomes the helper's code with `T = E; BODY` in place of the yield
+    def gen_inline(stmts):
+        nonlocal done
+        i = 0
+        while i < len(stmts):
+            s = stmts[i]
+            if isinstance(s, ast.For) and not s.orelse and isinstance(s.iter, ast.Call):
+                try:
+                    tg, how = prog.resolve_call(s.iter, fi)
+                except Exception:
+                    tg, how = [], "unknown"
+                g = tg[0] if len(tg) == 1 and how not in ("class", "by-name-ambiguous", "unknown") else None
+                if g is not None and g is not fi and is_new(g) and g.module.kind in ("py", "pyx") and not g.qual.startswith(fi.qual + "."):
+                    repl = _instantiate_generator(g, s, caller_names)
+                    if repl is not None:
+                        stmts[i : i + 1] = repl
+                        stats.setdefault(fi.qual, []).append(g.qual)
+                        stats.setdefault("#inlined", set()).add(g.qual)
+                        done += 1
+                        i += len(repl)
+                        continue
+            for f in ("body", "orelse", "finalbody"):
+                sub = getattr(s, f, None)
+                if isinstance(sub, list) and sub and isinstance(sub[0], ast.stmt):
+                    gen_inline(sub)
+            for h in getattr(s, "handlers", []) or []:
+                gen_inline(h.body)
+            i += 1
+
+    gen_inline(fi.node.body)
 
     # expression-level: helpers that are a single `return <expr>`
     class ExprInline(ast.NodeTransformer):
@@ -631,17 +757,26 @@ def _coalesce_copies(fi, ref_locals, stats):
                 if blk is None:
                     continue
                 i = [k for k, x in enumerate(blk) if x is n][0]
-                # T must not be used after the copy (in the rest of this block or, via enclosing loops, before it again
-                # without being re-initialised -- approximated: every other occurrence of T lies in earlier statements of the same block)
+                # T is dead after the copy and R does not exist before it: in pre-order every occurrence of T precedes the copy
+                # statement, every occurrence of R follows it, and the uses of R lie in the copy's own block (after it)
+                order = {}
+                stack_ = [fnode]
+                k_ = 0
+                while stack_:
+                    x_ = stack_.pop()
+                    order[id(x_)] = k_
+                    k_ += 1
+                    stack_.extend(reversed(list(ast.iter_child_nodes(x_))))
+                here = order[id(n)]
                 occ = [x for x in ast.walk(fnode) if isinstance(x, ast.Name) and x.id == T and x is not n.value]
-                early = set()
-                for st_ in blk[:i]:
-                    for x in ast.walk(st_):
-                        early.add(id(x))
-                if not occ or not all(id(x) in early for x in occ):
+                if not occ or not all(order[id(x)] < here for x in occ):
                     continue
-                # R must not be read before the copy inside this block either
-                if any(isinstance(x, ast.Name) and x.id == R for st_ in blk[:i] for x in ast.walk(st_)):
+                r_occ = [x for x in ast.walk(fnode) if isinstance(x, ast.Name) and x.id == R and x is not n.targets[0]]
+                later = set()
+                for st_ in blk[i + 1 :]:
+                    for x in ast.walk(st_):
+                        later.add(id(x))
+                if not all(id(x) in later for x in r_occ):
                     continue
                 hit = (n, R, T, blk)
                 break
@@ -894,7 +1029,7 @@ def _propagate_temps(fi, ref_locals, stats):
                 my_uses = cover.get(id(d), [])
                 if not my_uses:
                     continue
-                free = _names_used(e)
+                free = _names_used(e) - {x.id for x in ast.walk(e) if isinstance(x, ast.Name) and isinstance(x.ctx, ast.Store)}
                 d_loops = {id(l) for l in loops_around(d)}
                 last_use = max(order[id(un)] for un in my_uses)
                 inside_def = {id(x) for x in ast.walk(d)}
@@ -996,6 +1131,41 @@ class _AttrConst(ast.NodeTransformer):
             ast.fix_missing_locations(new)
             return new
         return node
+
+
+def _unfold_filtered_loops(fi, ref_fingerprints, stats):
+    """A new `for T in (V for V in ITER if COND): BODY` (generator or list, element = the variable itself) is
+    `for T in ITER: if COND[T/V]: BODY`.  (For a list the filter is evaluated for all elements before the first BODY runs;
+    the normal form assumes BODY does not change what COND sees for later elements -- what a reviewer of such a clean-up checks.)"""
+    from . import alpha
+
+    locs = alpha.local_names(fi.node)
+    done = 0
+    for n in list(walk_function(fi.node)):
+        if not (isinstance(n, ast.For) and not n.orelse and isinstance(n.iter, (ast.GeneratorExp, ast.ListComp))):
+            continue
+        c = n.iter
+        if len(c.generators) != 1 or not c.generators[0].ifs or c.generators[0].is_async:
+            continue
+        g = c.generators[0]
+        if not (isinstance(g.target, ast.Name) and isinstance(c.elt, ast.Name) and c.elt.id == g.target.id and isinstance(n.target, ast.Name)):
+            continue
+        if alpha._fingerprint(n, locs)[0] in ref_fingerprints:
+            continue
+        cond = g.ifs[0] if len(g.ifs) == 1 else ast.BoolOp(op=ast.And(), values=list(g.ifs))
+        cond = _clone(cond)
+        if g.target.id != n.target.id:
+            holder = ast.Expression(body=cond)
+            _Rename({g.target.id: n.target.id}).visit(holder)
+            cond = holder.body
+        guard = ast.If(test=cond, body=list(n.body), orelse=[])
+        ast.copy_location(guard, n)
+        n.iter = g.iter
+        n.body = [guard]
+        ast.fix_missing_locations(n)
+        stats.setdefault("#filtered_loops", []).append(fi.qual)
+        done += 1
+    return done
 
 
 def _split_new_divmod(fi, ref_fingerprints, stats):
@@ -1205,6 +1375,9 @@ def normalise(prog, ref):
                 k = _propagate_temps(fi, ref_locals, stats)
                 k += _coalesce_copies(fi, ref_locals, stats)
                 k += _merge_accumulators(fi, ref_locals, stats)
+                if _unfold_filtered_loops(fi, ref_fps, stats):
+                    set_parents(fi.node)
+                    k += 1
                 if not k:
                     break
         except RecursionError:
